@@ -126,6 +126,9 @@ func faultRun(ctx context.Context, cfg Config, p0 *Program, pi, run int, f *deco
 			r.Observe(ctx, &p)
 		}
 	}
+	if cfg.Audit {
+		childAudit(r, folder, p.Stores)
+	}
 	all = append(all, env.Hub.Take()...)
 	bfile.Write(fmt.Sprintf("p%d/%s", pi, tag), all, map[string]any{"tag": tag})
 	reached := f == nil || env.Hub.Reached[fmt.Sprintf("t%d", last+1)]
